@@ -22,10 +22,13 @@
    (predicates producer_blocked / worker_blocked).  A nil *spanBatch dereference or a send on a closed
    channel is the explicit state WCrash / PCrash.
 
-   cfg.fixed selects the repaired variant (build/c16/fix.patch):
-     QueueBatch: count 0 returns at once; after emptyQueue the capacity is tested again and a batch
-                 that still does not fit is dropped and counted as dumped;
-     doStreaming: `msg, ok := <-to.messages; if !ok { return statusShutdown }`.
+   cfg.fixed = true is the CURRENT code, i.e. with the three repairs
+     924bc09  QueueBatch: count 0 returns at once;
+     296039d  QueueBatch: after emptyQueue the capacity is tested again and a batch that still does not
+              fit is dropped and counted as dumped;
+     1697f0e  doStreaming: `msg, ok := <-to.messages; if !ok { return statusShutdown }`;
+   cfg.fixed = false is the code before those commits, kept for the regression witnesses of PropC16.v and
+   so that the check can tell when the implementation behaves like the old code again.
 
    Ghost fields (not in the Go code): wrapped zero_seen big_seen taken closed_early and the span
    ledgers g_*.                                                                                      *)
@@ -42,7 +45,7 @@ Definition lenN (l : list N) : N := N.of_nat (length l).
 
 Record cfg := {
   qsize : N;                 (* Config.QueueSize *)
-  fixed : bool;              (* false: the code as it is; true: with build/c16/fix.patch *)
+  fixed : bool;              (* true: the current code; false: the code before 924bc09/296039d/1697f0e *)
   app_sd_callable : bool     (* may somebody call closeInitiateAppShutdown?  (no caller exists today) *)
 }.
 
@@ -63,8 +66,8 @@ Inductive ppc :=
 | PDrain (n : N)            (* in getRemainingQueueCapacity *)
 | PEmpty (n d : N)          (* in emptyQueue, d = dropped so far *)
 | PSuppDump (n d : N)       (* next: to.supportability.increment <- {AgentQueueDumped, d} *)
-| PRecheck (n : N)          (* fixed only: capacity tested again after emptyQueue *)
-| PSuppDrop (n : N)         (* fixed only: next: supportability.increment <- {AgentQueueDumped, n} *)
+| PRecheck (n : N)          (* current code only (296039d): capacity tested again after emptyQueue *)
+| PSuppDrop (n : N)         (* current code only: next: supportability.increment <- {AgentQueueDumped, n} *)
 | PSend (n : N)             (* next: to.messages <- b *)
 | PDec (n : N)              (* next: to.messagesRemainingCapacity -= n *)
 | PWait                     (* Shutdown: in select { <-shutdownComplete | <-ticker.C } *)
@@ -175,8 +178,8 @@ Inductive label :=
 | LEmptyDone             (* ... default: (messages empty) capacity += dropped *)
 | LEmptyNil              (* ... receive on the closed empty channel: nil batch dereferenced *)
 | LSuppDump              (* to.supportability.increment <- AgentQueueDumped *)
-| LRecheck               (* fixed: second capacity test *)
-| LSuppDrop              (* fixed: the batch is dropped and counted as dumped *)
+| LRecheck               (* current code: second capacity test *)
+| LSuppDrop              (* current code: the batch is dropped and counted as dumped *)
 | LSend                  (* to.messages <- b *)
 | LSendClosed            (* ... on a closed channel: panic *)
 | LDec                   (* to.messagesRemainingCapacity -= count *)
